@@ -3,7 +3,7 @@
    every well-formed context and every type-correct function library, the
    compiled closures return exactly the denotation and never panic. *)
 From Coq Require Import List ZArith NArith Bool Lia Arith.
-From WF Require Import Base.Bytes Sem.RangeSet Lang.Types Lang.Ast Lang.Context
+From WF Require Import Base.Bytes Sem.RangeSet Sem.Matchers Lang.Types Lang.Ast Lang.Context
      Sem.Compile Spec.Denote Spec.Typing Proofs.ScalarProofs Proofs.ValueProofs Proofs.IndexProofs
      Proofs.ExecProofs Proofs.CallProofs.
 Import ListNotations.
@@ -222,11 +222,15 @@ Proof.
   - destruct tl as [| | | |[]|[]]; destruct op; cbn; intros H; try discriminate H; try exact H;
       try (destruct (forallb ip_item_wfb _); try discriminate H; exact H);
       try (destruct (list_index sch _) as [i|]; [destruct (Nat.eqb i _)|]; try discriminate H; exact H);
-      try (match goal with r : rhs |- _ => destruct r end; try discriminate H; exact H).
+      try (match goal with r : rhs |- _ => destruct r end; try discriminate H; exact H);
+      try (destruct (regex_compile _); try discriminate H; exact H);
+      try (destruct (wparse _) as [wt|]; [destruct (has_double_star wt)|]; try discriminate H; exact H).
   - destruct tl as [| | | |[]|[]]; destruct op; cbn; intros H; try discriminate H; try exact H;
       try (destruct (forallb ip_item_wfb _); try discriminate H; exact H);
       try (destruct (list_index sch _) as [i|]; [destruct (Nat.eqb i _)|]; try discriminate H; exact H);
-      try (match goal with r : rhs |- _ => destruct r end; try discriminate H; exact H).
+      try (match goal with r : rhs |- _ => destruct r end; try discriminate H; exact H);
+      try (destruct (regex_compile _); try discriminate H; exact H);
+      try (destruct (wparse _) as [wt|]; [destruct (has_double_star wt)|]; try discriminate H; exact H).
 Qed.
 
 Lemma P_comparison lhs op : P_iexpr lhs -> P_lexpr (EComparison lhs op).
